@@ -21,6 +21,10 @@ pyeval funs vars hasargs src tuples   → values of `PyLang.evalSrc` (parse the 
 pyadf tuples (name args funs vars src)*   → values of `pyCompileADFSrc` (compileADF through the source texts)
 graph nodes                      → `<edges> <labels>` of `gp.graph`: edges `i.j,…` (`-` = none), labels percent-encoded
 semden mut|cx funs vars args pieces trees… text tuples → values of the model's semantic offspring and of the closed formula
+hist funs vars names0 steps nodes tuples → a session on ONE tree object and ONE set (`GpCompile.runSession`): `steps` =
+                                   `;`-separated `c` (compile) | `s` (str) | `r~old=new,…` (renameArguments); a node named `@i` is a
+                                   REFERENCE to the terminal of argument position `i` (its text is ignored).  Answers
+                                   `<observations> <final names> <values of compile under the final names> <values of evalRef>`
 srcok args nodes                 → `1` iff the hypotheses of `C12.parse_compileSrc` hold (`wf`, `ArgsOK`, `SrcOK`)
 -/
 namespace DriverC12
@@ -269,7 +273,34 @@ def call2 (env : Env) (p : Prim) (a b : Option Val) : Option Val :=
   | some f, some x, some y => f [x, y]
   | _, _, _ => none
 
+/-- a node named `@i` is a reference to the terminal the set created for argument position `i` -/
+def argIxOf (p : Prim) : Option Nat :=
+  match p.name.toList with
+  | '@' :: r => (String.ofList r).toNat?
+  | _ => none
+
+def parseHStep (s : String) : Option HStep :=
+  if s = "c" then some .compile
+  else if s = "s" then some .str
+  else match s.splitOn "~" with
+    | ["r", kv] => (parseAssoc decodeText kv).map HStep.rename
+    | _ => none
+
 def handle : List String → String
+  | ["hist", funs, vars, names0, steps, nodes, tuples] =>
+    match (do let f ← parseAssoc some funs; let v ← parseAssoc parseVal vars; let a ← parseNames names0
+              let st ← (steps.splitOn ";").mapM parseHStep
+              let l ← parseNodes nodes; let tu ← parseTuples tuples; pure (f, v, a, st, l, tu)) with
+    | some (f, v, a, st, l, tu) =>
+      match parseTree l with
+      | some t =>
+        let r := runSession argIxOf l a st
+        let env := mkEnv f v
+        showList encodeText r.1 ++ " " ++ showList encodeText r.2 ++ " " ++
+          ",".intercalate (tu.map (fun vals => showRes (compile env r.2 (viewTree argIxOf r.2 t) vals))) ++ " " ++
+          ",".intercalate (tu.map (fun vals => showRes (evalRef env argIxOf vals t)))
+      | none => "none"
+    | none => "bad-op"
   | ["str", nodes] =>
     match parseNodes nodes with
     | some l => encodeText (strBuilder l)
